@@ -281,8 +281,6 @@ Lemma parse_mru_cons a0 a1 a2 a3 a4 a5 a6 a7 d1 :
   end.
 Proof. reflexivity. Qed.
 
-Lemma run_repeat e body s z : ev e s = Some z -> run (TRepeat e body) s = iter_body (run body) (Z.to_nat z) s.
-Proof. intros H. cbn [run]. rewrite H. reflexivity. Qed.
 
 Theorem mru_prog_correct : forall d, mru_agrees d.
 Proof.
@@ -336,6 +334,10 @@ Qed.
 
 Lemma run_pure s : run TPure s = RFall s.
 Proof. reflexivity. Qed.
+Lemma run_forget_pure v s :
+  run (TSeq (TForget v) TPure) s = RFall (mkS (s_rest s) (s_idx s) (forget v (s_ints s)) (forget v (s_mems s))).
+Proof. reflexivity. Qed.
+Ltac forget_now := cbn [forget names_var N.eqb Pos.eqb andb s_rest s_idx s_ints s_mems].
 
 Theorem head_prog_correct : forall d, head_agrees d.
 Proof.
@@ -351,7 +353,7 @@ Proof.
     destruct (N.eqb_spec ll 0) as [E0|E0]; [lia|].
     destruct (StreamProg.has (N.to_nat ll) d) eqn:Hh.
     + erewrite run_mem with (z := Z.of_N ll); [|reflexivity|exact Hpos|rewrite to_nat_of_N; exact Hh].
-      norm. rewrite to_nat_of_N. do 3 (rewrite run_seq_eq, run_pure; cbv beta iota).
+      norm. rewrite to_nat_of_N. do 3 (rewrite run_seq_eq, run_forget_pure; cbv beta iota; forget_now).
       erewrite run_let with (z := (4 + Z.of_N ll)%Z) by reflexivity. norm.
       split.
       * cbv [int_of mem_of geti getm s_ints s_mems s_rest text_eqb N.eqb Pos.eqb andb L
@@ -362,7 +364,7 @@ Proof.
         rewrite (firstn_len_has _ _ Hh). lia.
     + cbn [run ev geti s_ints s_rest text_eqb N.eqb Pos.eqb andb]. rewrite to_nat_of_N, Hh.
       destruct (0 <? Z.of_N ll)%Z; reflexivity.
-  - rewrite run_nop. norm. do 3 (rewrite run_seq_eq, run_pure; cbv beta iota).
+  - rewrite run_nop. norm. do 3 (rewrite run_seq_eq, run_forget_pure; cbv beta iota; forget_now).
     erewrite run_let with (z := (4 + Z.of_N ll)%Z) by reflexivity. norm.
     split.
     + cbv [int_of mem_of geti getm s_ints s_mems s_rest text_eqb N.eqb Pos.eqb andb L
